@@ -13,7 +13,7 @@ AttrTable == {
   [a |-> "Condition.left.useCalibratedValue", vals |-> {"true", "false"}, womit |-> {}, rdefault |-> "true"],
   [a |-> "Condition.right.useCalibratedValue", vals |-> {"true", "false"}, womit |-> {}, rdefault |-> "true"],
   [a |-> "Condition.operator", vals |-> {"==", "!=", "<", ">=", "leq", "gt"}, womit |-> {}, rdefault |-> "=="],
-  [a |-> "BooleanExpression.shape", vals |-> {"condition", "and", "or", "and-of-or", "or-of-and"}, womit |-> {}, rdefault |-> "condition"],
+  [a |-> "BooleanExpression.shape", vals |-> {"condition", "and", "or", "and-of-or", "or-of-and", "and-of-two-ors", "or-of-two-ands"}, womit |-> {}, rdefault |-> "condition"],
   [a |-> "Comparison.comparisonOperator", vals |-> {"==", "!=", "<", ">", "<=", ">="}, womit |-> {}, rdefault |-> "=="],
   [a |-> "SplineCalibrator.order", vals |-> {"0", "1"}, womit |-> {}, rdefault |-> "0"],
   [a |-> "SplineCalibrator.extrapolate", vals |-> {"true", "false"}, womit |-> {}, rdefault |-> "false"],
@@ -24,10 +24,16 @@ AttrTable == {
   [a |-> "LinearAdjustment", vals |-> {"none", "8x+0", "8x-8", "0x+16", "1x+3", "1x+0"}, womit |-> {"none"}, rdefault |-> "none"],
   [a |-> "DefaultCalibrator", vals |-> {"none", "poly", "spline"}, womit |-> {"none"}, rdefault |-> "none"],
   [a |-> "ContextCalibratorList", vals |-> {"none", "one", "two"}, womit |-> {"none"}, rdefault |-> "none"],
-  [a |-> "TimeEncoding.scale/offset", vals |-> {"none", "offset+scale", "scale"}, womit |-> {"none"}, rdefault |-> "none"],
+  [a |-> "TimeEncoding.scale/offset", vals |-> {"none", "offset+scale", "scale", "quadratic", "offset+scale+quadratic", "offset+quadratic", "constant"},
+   womit |-> {"none"}, rdefault |-> "none"],
   [a |-> "ReferenceTime.Epoch", vals |-> {"", "TAI"}, womit |-> {""}, rdefault |-> ""],
   [a |-> "LeadingSize", vals |-> {"none", "8", "16"}, womit |-> {"none"}, rdefault |-> "none"],
-  [a |-> "TerminationChar", vals |-> {"none", "00", "5800"}, womit |-> {"none"}, rdefault |-> "none"]}
+  [a |-> "TerminationChar", vals |-> {"none", "00", "5800"}, womit |-> {"none"}, rdefault |-> "none"],
+  \* structural alternatives (one element instead of another; nothing is omitted or defaulted): every form must survive
+  [a |-> "BinaryLength", vals |-> {"dynamic", "fixed", "lookup", "lookup-lists"}, womit |-> {}, rdefault |-> "dynamic"],
+  [a |-> "StringLength", vals |-> {"dynamic", "lookup", "lookup-lists"}, womit |-> {}, rdefault |-> "dynamic"],
+  [a |-> "ContextMatch", vals |-> {"comparisons", "boolean-expression"}, womit |-> {}, rdefault |-> "comparisons"],
+  [a |-> "ReferenceTime.OffsetFrom", vals |-> {"", "N"}, womit |-> {""}, rdefault |-> ""]}
 WriteAttr(r, v) == IF v \in r.womit THEN Absent ELSE v
 ReadAttr(r, x) == IF x = Absent THEN r.rdefault ELSE x
 AttrPreserved == \A r \in AttrTable : \A v \in r.vals : ReadAttr(r, WriteAttr(r, v)) = v
